@@ -165,6 +165,50 @@ func c08SharedHandle(c *rt.Ctx, fsType string, rep int, calls *c08Calls) {
 	wg.Wait()
 }
 
+// c08Root: the root directory as operand. One goroutine fills the root and empties it again with RemoveAll("/") while
+// others list, stat and walk the root by path and through one shared directory handle on it, and create below it.
+func c08Root(c *rt.Ctx, fsType string, rep int, calls *c08Calls) {
+	v := newBase(fsType)
+	dir, err := v.OpenFile("/", os.O_RDONLY, 0)
+	if err != nil {
+		return
+	}
+	var wg sync.WaitGroup
+	for g := 0; g < 5; g++ {
+		g := g
+		wg.Add(1)
+		go func() {
+			defer wg.Done()
+			e := fsx.NewEnv(v)
+			e.Files[0] = dir
+			for i := 0; i < 60; i++ {
+				var ops []fsx.Op
+				switch g {
+				case 0:
+					ops = []fsx.Op{{K: "MkdirAll", P: fmt.Sprintf("/r%d/s", i%3), Perm: 0o755}, {K: "WriteFile", P: fmt.Sprintf("/q%d", i%3), Data: "x", Perm: 0o644}, {K: "RemoveAll", P: "/"}}
+				case 1:
+					ops = []fsx.Op{{K: "ReadDir", P: "/"}, {K: "Stat", P: "/"}, {K: "Lstat", P: "/"}}
+				case 2:
+					ops = []fsx.Op{{K: "F.Readdirnames", H: 0, N: 2}, {K: "F.ReadDir", H: 0, N: -1}, {K: "F.Stat", H: 0}}
+				case 3:
+					ops = []fsx.Op{{K: "WalkDir", P: "/"}, {K: "Glob", P: "/*"}}
+				default:
+					ops = []fsx.Op{{K: "Mkdir", P: fmt.Sprintf("/m%d", i%2), Perm: 0o755}, {K: "WriteFile", P: fmt.Sprintf("/m%d/f", i%2), Data: "y", Perm: 0o644}, {K: "Remove", P: fmt.Sprintf("/q%d", i%3)}}
+				}
+				for _, o := range ops {
+					res := e.Exec(o)
+					calls.add("root:" + o.K)
+					if res.Err == "panic" {
+						calls.add("panic:" + o.K)
+					}
+				}
+			}
+		}()
+	}
+	wg.Wait()
+	_ = dir.Close()
+}
+
 func c08Idm(c *rt.Ctx, rep int, calls *c08Calls) {
 	idm := memidm.New()
 	var wg sync.WaitGroup
@@ -396,7 +440,7 @@ func init() {
 		Shards: shards(8, 16),
 		Meta: func(tier string) rt.Meta {
 			return rt.Meta{Level: "exploration", MinEvals: 10000, MinDistinct: 20,
-				Rule:        "the harness is built with -race and every workload runs free on all cores with a seeded yield at a fraction of the lock sites (verif hook): (1) 2-16 goroutines issuing random calls of all ~40 kinds (incl. Rename, Link, Symlink, Truncate, Chmod, Chown, Chtimes, ReadDir/WalkDir while mutating, temp creation, handle I/O) over 3 names in a shared tree - MemFS through per-goroutine Sub views with different users and umasks and their own cwd, one shared OrefaFS, everybody also setting and reading the creation mask; (2) six goroutines sharing ONE handle and each owning another handle on the same file, plus a shared directory handle, while names are created and removed; (3) one shared MemIdm under add/del/lookup; (3b) six goroutines copying and hashing distinct files concurrently (CopyFileHash/HashFile share a pool of buffers): every copy ends with its own bytes and digest; (4) visibility: writers create names carrying their id and publish a counter after the call returned, readers read the counter before Stat/ReadDir/ReadFile and must see the name (unique names make the log unambiguous). Race reports are collected with GORACE=halt_on_error=0 log_path=..., counted from the log files and de-duplicated by the pair of innermost avfs functions; a runtime fatal error (concurrent map access) in a worker is a violation. Signature = workload | call kind; evaluations = calls executed; non-trivial = call kinds executed concurrently with others on the shared tree.",
+				Rule:        "the harness is built with -race and every workload runs free on all cores with a seeded yield at a fraction of the lock sites (verif hook): (1) 2-16 goroutines issuing random calls of all ~40 kinds (incl. Rename, Link, Symlink, Truncate, Chmod, Chown, Chtimes, ReadDir/WalkDir while mutating, temp creation, handle I/O) over 3 names in a shared tree - MemFS through per-goroutine Sub views with different users and umasks and their own cwd, one shared OrefaFS, everybody also setting and reading the creation mask; (2) six goroutines sharing ONE handle and each owning another handle on the same file, plus a shared directory handle, while names are created and removed; (2b) the root as operand: one goroutine fills the root and empties it with RemoveAll(\"/\") while others list, stat, glob and walk it by path and through one shared directory handle on it, and create below it; (3) one shared MemIdm under add/del/lookup; (3b) six goroutines copying and hashing distinct files concurrently (CopyFileHash/HashFile share a pool of buffers): every copy ends with its own bytes and digest; (4) visibility: writers create names carrying their id and publish a counter after the call returned, readers read the counter before Stat/ReadDir/ReadFile and must see the name (unique names make the log unambiguous). Race reports are collected with GORACE=halt_on_error=0 log_path=..., counted from the log files and de-duplicated by the pair of innermost avfs functions; a runtime fatal error (concurrent map access) in a worker is a violation. Signature = workload | call kind; evaluations = calls executed; non-trivial = call kinds executed concurrently with others on the shared tree.",
 				Assumptions: []string{"only races of the schedules that ran are seen (inherent to dynamic race detection)", "sharing one OrefaFS *view* among goroutines that Chdir/SetUser it is not exercised: those write unsynchronised per-view fields and are not part of the documented use"}}
 		},
 		CrashIsViolation: true,
@@ -430,6 +474,8 @@ func init() {
 				c08Tree(c, "OrefaFS", rep, G, c.Pick(150, 300), true, calls)
 				c08SharedHandle(c, "MemFS", rep, calls)
 				c08SharedHandle(c, "OrefaFS", rep, calls)
+				c08Root(c, "MemFS", rep, calls)
+				c08Root(c, "OrefaFS", rep, calls)
 				c08Idm(c, rep, calls)
 				c08Copy(c, "MemFS", rep, calls)
 				c08Copy(c, "OrefaFS", rep, calls)
